@@ -138,10 +138,10 @@ func rvIntBytes(n *big.Int) []byte {
 			break
 		}
 	}
-	v := new(big.Int).Mod(n, new(big.Int).Lsh(rvOne, uint(8*k))) // Euclidean: 0 <= v < 2^(8k)
 	out := make([]byte, k)
 	for i := 0; i < k; i++ {
-		d := new(big.Int).And(new(big.Int).Rsh(v, uint(8*i)), rvByteM)
+		// byte i of the two's complement form: floor(n / 256^i) mod 256
+		d := new(big.Int).And(new(big.Int).Rsh(n, uint(8*i)), rvByteM)
 		out[i] = byte(d.Uint64())
 	}
 	return out
@@ -921,6 +921,9 @@ func (m *rvVM) exec(f *rvFrame, op opcode.Opcode, arg []byte, start int) {
 		if n < 0 {
 			rvFail("negative index")
 		}
+		if n == 0 && len(*f.stack) == 0 {
+			rvUnspec("ROLL 0 on an empty stack")
+		}
 		if n > 0 {
 			x := m.removeAt(n)
 			m.push(x)
@@ -1233,6 +1236,9 @@ func (m *rvVM) exec(f *rvFrame, op opcode.Opcode, arg []byte, start int) {
 			if i < 0 {
 				rvFail("negative index")
 			}
+			if i >= rvMaxItemSize {
+				rvUnspec("HASKEY index beyond the maximum item size (hardfork dependent)")
+			}
 			m.push(rvMkBool(i < len(x.el)))
 		case rvMap:
 			rvCheckKey(k)
@@ -1241,6 +1247,9 @@ func (m *rvVM) exec(f *rvFrame, op opcode.Opcode, arg []byte, start int) {
 			i := rvIndex(k)
 			if i < 0 {
 				rvFail("negative index")
+			}
+			if i >= rvMaxItemSize {
+				rvUnspec("HASKEY index beyond the maximum item size (hardfork dependent)")
 			}
 			m.push(rvMkBool(i < len(x.bs)))
 		default:
